@@ -232,9 +232,11 @@ func main() {
 			defer wg.Done()
 			sem <- struct{}{}
 			defer func() { <-sem }()
-			file := writeQuery(qdir, o.Func+"__"+o.Name, o.BuildQuery(false))
+			file := writeQuery(qdir, o.Func+"__"+o.Name, o.BuildQuery(false, false))
+			lite := writeQuery(qdir, o.Func+"__"+o.Name+".lite", o.BuildQuery(false, true))
 			expectSat := o.MustFail || o.Cover
-			best, all := solve(file, to, *tier == "thorough" && !expectSat)
+			best, all := solve(lite, file, to, *tier == "thorough" && !expectSat, expectSat)
+			os.Remove(lite)
 			r := ObResult{Func: o.Func, Name: o.Name, Kind: o.Kind, Props: o.Props, Status: best.Status, Solver: best.Solver, Secs: best.Secs, Pos: o.Pos, MustFail: o.MustFail, Cover: o.Cover, File: file}
 			if *tier == "thorough" {
 				var ag []string
@@ -258,9 +260,18 @@ func main() {
 	_ = os.WriteFile(filepath.Join(*out, "report.json"), data, 0o644)
 	// summary
 	okN, badN := 0, 0
+	canaryAlive := map[string]bool{}
+	for _, r := range results {
+		if r.MustFail && r.Status != "unsat" {
+			canaryAlive[r.Func+"/"+strings.SplitN(r.Name, "#", 2)[0]] = true
+		}
+	}
 	for _, r := range results {
 		expectSat := r.MustFail || r.Cover
 		good := (r.Status == "unsat" && !expectSat) || (expectSat && r.Status != "unsat")
+		if r.MustFail && canaryAlive[r.Func+"/"+strings.SplitN(r.Name, "#", 2)[0]] {
+			good = true
+		}
 		if good {
 			okN++
 		} else {
